@@ -32,7 +32,7 @@ ASSUMPTIONS = ['RefDense (sim/ref/dense.py): last value held, closed windows, no
 REAL = common.REAL_ALL
 STUBS = common.STUBS_ALL
 PROBES = ['sensors_start_at_different_instants', 'window_longer_than_signal', 'result_starts_with_inf', 'coincident_instants',
-          'one_sample_signal', 'resample']
+          'one_sample_signal', 'resample', 'bounds_are_declared_constants_below_1e-6']
 INTERLEAVING_MEASURE = 'distinct sequences of Allen relations met when the sensors\' sample intervals are merged'
 ENVELOPE_RULES = ['bounded-op-nonzero-start: a bounded temporal operator whose operand domain does not start at time 0 '
                   '(known finding F14a; the suite pins the anchoring at 0)']
@@ -95,11 +95,18 @@ def _gen(rng, big=False):
     order = list(vars_)
     rng.shuffle(order)
     return {'vars': vars_, 'ast': ast, 'text': text, 'signals': signals, 'signals2': sig2, 'fired': fired,
-            'cls': 'ct_off' if rng.random() < 0.7 else 'ct', 'order': order, 'again': again}
+            'cls': 'ct_off' if rng.random() < 0.7 else 'ct', 'order': order, 'again': again,
+            'fine_consts': rng.random() < 0.08 and any(x[0] in sg.TUN + sg.TBIN for x in sg.walk(ast))}
 
 
 def _check(r, sc, text, signals, ref, s0, e0, tag, keep=None):
     desc = {'cls': sc.get('cls', 'ct_off'), 'vars': common.var_decls(sc['vars']), 'spec': text}
+    if sc.get('fine_consts') and tag != 'second-requirement':
+        # the time axis is in microseconds, the bounds are declared constants given in seconds (0.00000025 s = one tick)
+        desc['spec'], desc['consts'] = common.fine_const_bounds(sc['ast'])
+        desc['unit'] = 'us'
+        text = desc['spec']
+        r.probes['bounds_are_declared_constants_below_1e-6'] += 1
     try:
         spec = keep[0] if keep else M.build(desc)
         if keep is not None and not keep:
@@ -191,6 +198,10 @@ def shrinks(sc):
         if s.get('again'):
             c = copy.deepcopy(s)
             c['again'] = None
+            yield c
+        if s.get('fine_consts'):
+            c = copy.deepcopy(s)
+            c['fine_consts'] = False
             yield c
         if s.get('signals2'):
             c = copy.deepcopy(s)
